@@ -1,6 +1,7 @@
 import MdkVerif.Model.Snapshots
 import MdkVerif.Proofs.Store
 import MdkVerif.Props.C09
+import MdkVerif.Proofs.SnapBound
 /-
   C20 — Rollback snapshots stay bounded in number and age.
   For every retention value, every backend and every sequence of commits (create), rollbacks, MIP-03
@@ -213,5 +214,49 @@ theorem never_better_than_itself (m : Mgr) (g e : Nat) (x : Meta)
 example : ((Snapshots.run (init .sql 2) [.saveGroup 1 11, .create 1 1 7 100 1000, .create 1 2 8 101 1001, .create 1 3 9 102 1002]).store.snaps.map (·.name))
     = [mkName 2 8, mkName 3 9] := by decide
 example : ((Snapshots.run (init .mem 0) [.saveGroup 1 11, .create 1 1 7 100 1000]).store.snaps.length) = 0 := by decide
+
+/-! ### the bound on STORED snapshots
+
+  `bound_inv` bounds the manager's queue; what costs disk / memory is the snapshot table.  The
+  invariant `SInv r` (Proofs/SnapBound.lean) ties the two: the names stored for a group are
+  duplicate-free (snapshot keys `(group, name)` are unique) and — on memory always, on SQLite once the
+  group is hydrated — contained in the names of that group's queue; for a SQLite group not yet
+  hydrated after a restart the queue is empty and the stored set is at most what it was (it only
+  shrinks: start-up prune).  Hypotheses, both true of `Snapshots.Op`: snapshots enter the store only
+  through the manager, and the retention value is the same across restarts.  No assumption on epochs
+  or names: the queue may hold the same name twice (a re-taken snapshot) — the bound still holds. -/
+
+/-- the invariant holds after every operation sequence, either backend, every retention value -/
+theorem stored_inv (b : Backend) (r : Nat) (ops : List Snapshots.Op) : SInv r (Snapshots.run (init b r) ops) :=
+  run_sinv r ops _ (init_sinv b r)
+
+/-- snapshot keys are unique: per group, no name is stored twice -/
+theorem stored_keys_unique (b : Backend) (r : Nat) (ops : List Snapshots.Op) (g : Nat) :
+    (namesOf (Snapshots.run (init b r) ops).store.snaps g).Nodup :=
+  (stored_inv b r ops).nodup g
+
+/-- every stored snapshot of a group the manager has loaded is in that group's queue -/
+theorem stored_subset_queue (b : Backend) (r : Nat) (ops : List Snapshots.Op) (g : Nat)
+    (hc : covered (Snapshots.run (init b r) ops) g) :
+    ∀ n ∈ namesOf (Snapshots.run (init b r) ops).store.snaps g,
+      n ∈ ((Snapshots.run (init b r) ops).queue g).map (·.name) :=
+  (stored_inv b r ops).sub g hc
+
+/-- **stored_bound**: for every retention value `r` (0 included), either backend, every sequence of
+    commits, comparisons, rollbacks, group saves and restarts (any TTL), and every group: at most
+    `r` snapshots of that group are stored -/
+theorem stored_bound (b : Backend) (r : Nat) (ops : List Snapshots.Op) (g : Nat) :
+    ((Snapshots.run (init b r) ops).store.snaps.filter (·.gid == g)).length ≤ r := by
+  have := (stored_inv b r ops).stored_le g
+  simpa [namesOf] using this
+
+/-- non-vacuity / regression: retention 2 on SQLite — three commits, a restart that prunes nothing,
+    hydration on the next use, a fourth commit: two snapshots stored, the two newest -/
+example : ((Snapshots.run (init .sql 2) [.saveGroup 1 11, .create 1 1 7 100 1000, .create 1 2 8 101 1001, .create 1 3 9 102 1002,
+      .restart 2000 5000, .create 1 4 6 103 1003]).store.snaps.map (·.name)) = [mkName 3 9, mkName 4 6] := by decide
+
+/-- the same snapshot name taken twice (queue holds the name twice, the store once): still within the bound -/
+example : ((Snapshots.run (init .mem 3) [.saveGroup 1 11, .create 1 1 7 100 1000, .create 1 1 7 100 1001]).queue 1).length = 2 ∧
+    ((Snapshots.run (init .mem 3) [.saveGroup 1 11, .create 1 1 7 100 1000, .create 1 1 7 100 1001]).store.snaps.length) = 1 := by decide
 
 end MdkVerif.Props.C20
